@@ -29,6 +29,7 @@ EXPLANATION = (
     "PRNG-1: the restricted and the unrestricted local reconfiguration consume the key identically (new "
     "key stored back, subkey drawn from). "
     " KEYS-4: a trial builder that rewrites ham_data['h1'] (symmetrisation) computes what it stores next to it (rot_h1 ...) from the h1 it stores, not from the incoming one. "
+    ' PAIR-1 (half rotation): in the rhf / uhf builders the matrix applied to h1 for rot_h1 and the one applied to the Cholesky vectors for rot_chol do not differ by a complex conjugation (frozen exception: noci, real determinants). '
 )
 NOT_DECIDED = "equality of restricted and unrestricted trajectories and energies (numerical)."
 TECHNIQUE = "static analysis: batching shape rule, walker-axis mixing query over def-use terms, linear value numbering of the two builders"
